@@ -213,6 +213,8 @@ func (e *Engine) resolveType(pkg string, expr string) (types.Type, error) {
 		return types.Typ[types.String], nil
 	case "float64":
 		return types.Typ[types.Float64], nil
+	case "ref":
+		return types.Typ[types.UnsafePointer], nil
 	}
 	p := e.pkgByShort(pkg)
 	if p == nil {
